@@ -56,6 +56,51 @@ let mres_s = function MBint x -> hex_of_limbs x | MFallback _ -> "fallback"
 let cres_s = function COk x -> hex_of_limbs x | CAssert -> "!err assert"
 let optb_s = function Some l -> hex_of_limbs l | None -> "nil"
 
+(* ---- aliasing stream: the object-level model on the store [x; y; m] ---- *)
+let alias_run (fname : string) (x : z list) (y : z list) (n : z) (m : z list) : string =
+  let s0 = [x; y; m] in
+  let r0 = O and r1 = S O and r2 = S (S O) in
+  let one (s, r) = (s, [r], "") in
+  let pair = function Ok (s, (q, r)) -> (s, [q; r], "") | Err e -> (s0, [], err_s e) in
+  let s', refs, scalar =
+    match fname with
+    | "tobint" | "parse" -> one (o_tobint s0 r0 false)
+    | "tobintc" -> one (o_tobint s0 r0 true)
+    | "new" -> one (o_new s0 r0)
+    | "abs" -> one (o_abs s0 r0)
+    | "inc" -> one (o_inc s0 r0)
+    | "dec" -> one (o_dec s0 r0)
+    | "max" -> one (o_max s0 r0 r1)
+    | "min" -> one (o_min s0 r0 r1)
+    | "add" -> one (o_bin badd s0 r0 r1)
+    | "sub" -> one (o_bin bsub s0 r0 r1)
+    | "mul" -> one (o_bin bmul s0 r0 r1)
+    | "bnot" -> one (o_bnot s0 r0)
+    | "unm" -> one (o_neg s0 r0)
+    | "band" -> one (o_bit band s0 r0 r1)
+    | "bor" -> one (o_bit bor s0 r0 r1)
+    | "bxor" -> one (o_bit bxor s0 r0 r1)
+    | "shl" -> one (o_shift true s0 r0 n)
+    | "shr" -> one (o_shift false s0 r0 n)
+    | "bwrap" -> one (o_bwrap s0 r0 n)
+    | "brol" -> one (o_rot true s0 r0 n)
+    | "bror" -> one (o_rot false s0 r0 n)
+    | "udivmod" -> pair (o_udivmod s0 r0 r1)
+    | "idivmod" -> pair (o_idivmod s0 r0 r1)
+    | "tdivmod" -> pair (o_tdivmod s0 r0 r1)
+    | "ipow" -> (match o_ipow s0 r0 r1 with Ok p -> one p | Err e -> (s0, [], err_s e))
+    | "upowmod" -> (match o_upowmod s0 r0 r1 r2 with Ok p -> one p | Err e -> (s0, [], err_s e))
+    | "tobase" -> let (s, r) = o_tobase s0 r0 n None in (s, [], res_str r)
+    | "tointeger" -> let (s, i) = o_tointeger s0 r0 in (s, [], "i " ^ hex_of_z i)
+    | "compress" -> (match o_compress s0 r0 with (s, Inl i) -> (s, [], "i " ^ hex_of_z i) | (s, Inr r) -> (s, [r], ""))
+    | _ -> (s0, [], "?unknown-alias-op")
+  in
+  let flag r = if r = r0 then "x" else if r = r1 then "y" else if r = r2 then "m" else "-" in
+  let rs = String.concat "/" (List.map (fun r -> hex_of_limbs (oget s' r)) refs) in
+  let s'' = List.fold_left (fun s r -> fst (oupd s r binc)) s' refs in
+  Printf.sprintf "R=%s%s X=%s Y=%s A=%s X2=%s Y2=%s" rs scalar (hex_of_limbs (oget s' r0)) (hex_of_limbs (oget s' r1))
+    (String.concat "" (List.map flag refs)) (hex_of_limbs (oget s'' r0)) (hex_of_limbs (oget s'' r1))
+
 let () =
   iter_lines (fun line ->
     match split_ws line with
@@ -130,6 +175,7 @@ let () =
            | "tohexint" -> res_str (tohexint (a 0) (optz 1))
            | "tobinint" -> res_str (tobinint (a 0) (optz 1))
            | "todecint" -> res_str (todecint (a 0))
+           | "alias" -> alias_run (List.nth args 0) (a 1) (a 2) (zi 3) (a 4)
            | "lua_tonumber" -> (match lua_tonumber_base (bytes 0) (zi 1) with Some v -> hex_of_z v | None -> "nil")
            | "lua_tostring" -> (match lua_tostring_int (zi 0) with Some t -> str_of_codes t | None -> "!err FUEL")
            | "lua_format_x" -> (match lua_format_x (zi 0) with Some t -> str_of_codes t | None -> "!err FUEL")
